@@ -154,6 +154,13 @@ type FnTrans struct {
 	entryLocksDone   bool
 	autoInv          map[*ssa.BasicBlock][3]string
 	autoPhi          map[*ssa.BasicBlock]*ssa.Phi
+	ptrTerms         []ptrTerm
+	ghostHit         map[*Clause]bool
+}
+
+type ptrTerm struct {
+	name string
+	line int // declared before this line index
 }
 
 type deferRec struct {
@@ -472,7 +479,7 @@ func (t *FnTrans) structSort(T types.Type, st *types.Struct) string {
 	t.dtSeen[name] = true
 	var fs []string
 	for i := 0; i < st.NumFields(); i++ {
-		fs = append(fs, fmt.Sprintf("(%s %s)", q(name+"."+st.Field(i).Name()), t.sortOf(st.Field(i).Type())))
+		fs = append(fs, fmt.Sprintf("(%s %s)", q(name+"."+fieldAcc(st, i)), t.sortOf(st.Field(i).Type())))
 	}
 	if len(fs) == 0 {
 		t.dtDecl = append(t.dtDecl, fmt.Sprintf("(declare-datatypes ((%s 0)) (((mk_%s))))", name, name))
@@ -480,6 +487,15 @@ func (t *FnTrans) structSort(T types.Type, st *types.Struct) string {
 		t.dtDecl = append(t.dtDecl, fmt.Sprintf("(declare-datatypes ((%s 0)) (((mk_%s %s))))", name, name, strings.Join(fs, " ")))
 	}
 	return name
+}
+
+// fieldAcc: accessor name of field i (blank fields are numbered)
+func fieldAcc(st *types.Struct, i int) string {
+	n := st.Field(i).Name()
+	if n == "_" {
+		return fmt.Sprintf("_%d", i)
+	}
+	return n
 }
 
 func (t *FnTrans) zero(T types.Type) string {
@@ -526,7 +542,9 @@ func (t *FnTrans) rangeFact(x string, T types.Type) string {
 	switch T.Underlying().(type) {
 	case *types.Slice:
 		return and(app("wf-slice", x), app("<", app("s.base", x), t.get("$alloc")))
-	case *types.Pointer, *types.Map, *types.Chan, *types.Interface, *types.Signature:
+	case *types.Interface:
+		return "true" // interface values are canonical encodings, not references
+	case *types.Pointer, *types.Map, *types.Chan, *types.Signature:
 		if _, ok := T.(*types.TypeParam); ok {
 			return "true"
 		}
@@ -667,7 +685,7 @@ func (t *FnTrans) store(p *Ptr, v string) {
 	if st, ok := t.isStruct(T); ok && (p.Kind == "field" || p.Kind == "obj") {
 		s := t.sortOf(T)
 		for i := 0; i < st.NumFields(); i++ {
-			t.store(t.fieldPtr(p, i), app(q(s+"."+st.Field(i).Name()), v))
+			t.store(t.fieldPtr(p, i), app(q(s+"."+fieldAcc(st, i)), v))
 		}
 		return
 	}
@@ -736,9 +754,9 @@ func (t *FnTrans) typedFresh(comp, term string) {
 		case *types.Pointer, *types.Map, *types.Chan, *types.Signature:
 			// closed heap: stored references denote allocated objects
 			return and(app("<=", "0", x), app("<", x, bound))
-		case *types.Interface:
-			if _, isTP := T.(*types.TypeParam); !isTP {
-				return app("<", x, bound)
+		case *types.Basic:
+			if b := T.Underlying().(*types.Basic); b.Kind() == types.UnsafePointer {
+				return app("<", x, bound) // atomic.Pointer cells: references to allocated objects (interior addresses are negative)
 			}
 		}
 		return ""
@@ -784,13 +802,28 @@ func (t *FnTrans) entryLockAxiom(comp, entryTerm string) {
 
 // fieldPtr: pointer to field i of the struct pointed to by p.
 func (t *FnTrans) fieldPtr(p *Ptr, i int) *Ptr {
+	var r *Ptr
 	switch p.Kind {
 	case "obj": // pointer to a heap struct object: ref
 		c, ft := t.fieldComp(p.T, "", i)
-		return &Ptr{Kind: "field", Comp: c, Ref: p.Ref, T: ft}
+		r = &Ptr{Kind: "field", Comp: c, Ref: p.Ref, T: ft}
 	case "field": // struct embedded by value in another struct
 		c, ft := t.fieldComp(p.T, p.Comp, i)
-		return &Ptr{Kind: "field", Comp: c, Ref: p.Ref, T: ft}
+		r = &Ptr{Kind: "field", Comp: c, Ref: p.Ref, T: ft}
+	}
+	if r != nil {
+		// a struct of a named type of the owner's own package embedded by value (e.g. the sentinel `root` of a
+		// list) is an object of that type in its own right, living at an interior address: its fields are
+		// the ordinary field components of its type, so that &owner.field can be stored, compared and
+		// dereferenced like any other pointer to such an object
+		if ft, ok := t.resolve(r.T).(*types.Named); ok {
+			if _, isS := ft.Underlying().(*types.Struct); isS {
+				if on, ok2 := derefNamed(t.resolve(p.T)); ok2 && on.Obj().Pkg() != nil && ft.Obj().Pkg() == on.Obj().Pkg() && strings.HasPrefix(on.Obj().Pkg().Path(), "github.com/iotaledger/hive.go") {
+					return &Ptr{Kind: "obj", Ref: t.addrTerm(r), T: r.T}
+				}
+			}
+		}
+		return r
 	}
 	t.fail("fieldPtr on pointer kind %s (type %s)", p.Kind, p.T)
 	return nil
